@@ -138,7 +138,7 @@ class CaseSpec:
                 distinct.add((shape_of(tterm), meta.get('family', meta.get('kind')), oc))
             if len(samples) < 6 and meta.get('kind') not in ('type',) and k % max(1, n // 6) == 0:
                 samples.append({'line': line[:300], 'rust_type': rust, 'impl': ia[:400], 'model': ma[:400]})
-        cov = {'evaluations': n, 'distinct_nontrivial': len(distinct),
+        cov = {'evaluations': n, 'distinct_nontrivial': len(distinct), 'distinct_set': sorted(distinct),
                'rule': self.rule + ' Distinct = distinct (type shape, case family, outcome class) triples over cases whose value is not the empty/zero one.',
                'samples': samples, 'traces_validated_against_impl': min(len(impl), len(model)),
                'input_distribution': {'families': cs.dist, 'outcomes': outcomes, 'types': len(u.types),
